@@ -88,8 +88,8 @@ LDup == Language("org.verif.dup",
 (* --- a tiny language for state-machine configs ------------------------------ *)
 LTiny == Language("org.verif.tiny",
   << Asset("Ta", NONE, <<>>,
-       << Def("d", Disabled, Ovr(<< St("s") >>)),
-          Or("s", Ovr(<< Col(F("rs"), St("s")) >>)) >>),
+       << Or("s", Ovr(<< Col(F("rs"), St("s")) >>)),
+          Def("d", Disabled, Ovr(<< St("s") >>)) >>),
      Asset("Ua", "Ta", <<>>, << Or("s", Ext(<< Col(F("ls"), St("s")) >>)) >>) >>,
   << AssocMany("Lk", "Ta", "ls", "rs", "Ta"),
      Assoc("Uu", "Ua", "ul", 0, 1, 0, 2, "ur", "Ua") >>)
@@ -98,11 +98,25 @@ LTiny == Language("org.verif.tiny",
 LOne == Language("org.verif.one",
   << Asset("Oa", NONE, <<>>,
        << Def("g", Enabled, NoR),
-          Or("s", Ovr(<< Col(F("mr"), St("s")), Col(F("tr"), St("s")) >>)) >>) >>,
+          Or("s", Ovr(<< Col(F("mr"), St("s")), Col(F("tr"), St("s")), St("s") >>)) >>) >>,
   << AssocMany("Many", "Oa", "ml", "mr", "Oa"),
      Assoc("Two", "Oa", "tl", 0, 2, 1, 2, "tr", "Oa"),
      Assoc("Uno", "Oa", "ul", 0, 1, 1, 1, "ur", "Oa") >>)
 
-Library == << LSet, LTrans, LVar, LDef, LInh, LDup, LTiny, LOne >>
-LibraryNames == << "LSet", "LTrans", "LVar", "LDef", "LInh", "LDup", "LTiny", "LOne" >>
+(* --- two associations with the same name AND the same field names between different asset pairs; a field name
+       that one asset owns while another association uses it for that very asset; same-named defenses with different
+       defaults on unrelated types ------------------------------------------------------------------------------ *)
+LSame == Language("org.verif.same",
+  << Asset("Pa", NONE, <<>>, << Def("hard", Disabled, NoR), Or("s", Ovr(<< Col(F("things"), St("u")), Col(F("owner"), St("s")) >>)) >>),
+     Asset("Qa", NONE, <<>>, << Def("hard", Enabled, NoR), Or("s", Ovr(<< Col(F("things"), St("u")) >>)) >>),
+     Asset("Xa", NONE, <<>>, << Or("u", Ovr(<< Col(F("owner"), St("s")) >>)) >>),
+     Asset("Ya", NONE, <<>>, << Or("u", Ovr(<< Col(F("owner"), St("s")) >>)) >>),
+     Asset("Za", NONE, <<>>, << Or("s", NoR) >>) >>,
+  << AssocMany("Own", "Pa", "owner", "things", "Xa"),
+     AssocMany("Own", "Qa", "owner", "things", "Ya"),
+     \* Pa is called "owner" by Xa (above) and itself owns a field "owner" leading to Za
+     AssocMany("Adm", "Pa", "machines", "owner", "Za") >>)
+
+Library == << LSet, LTrans, LVar, LDef, LInh, LDup, LTiny, LOne, LSame >>
+LibraryNames == << "LSet", "LTrans", "LVar", "LDef", "LInh", "LDup", "LTiny", "LOne", "LSame" >>
 =============================================================================
